@@ -10,7 +10,7 @@ class C17(pure.Spec):
     module = "Properties.C17"
     theorems = ["C17_reaches_iff", "C17_skip_accepts_any_certificate", "C17_verify_needs_chain_and_name",
                 "C17_client_ca_requires_issued_cert", "C17_no_client_ca_never_asks", "C17_established_undisturbed",
-                "C17_handshake_sees_latest", "C17_sni_overrides", "C17_hostname_overrides_url",
+                "C17_handshake_sees_latest", "C17_returning_sees_latest", "C17_sni_overrides", "C17_hostname_overrides_url",
                 "C17_url_host_by_default", "C17_name_case_iff"]
     crate = "app"
     binary = "vh-app"
